@@ -36,12 +36,18 @@ LEDGER = ledgers.SAMPLE.replace(
     '''2019-02-06 query "byaccount" "SELECT account, sum(position) AS s FROM year = 2019 GROUP BY account ORDER BY account"
 2019-02-06 query "nofrom" "SELECT date, narration, position WHERE number > 100"
 2019-02-06 query "closed" "SELECT account, sum(position) AS s FROM year = 2019 CLOSE ON 2019-01-12 GROUP BY 1 ORDER BY 1"
-2019-02-07 query "with space" "SELECT count(*) AS n FROM flag = '*'"''')
+2019-02-07 query "with space" "SELECT count(*) AS n FROM flag = '*'"
+2019-02-07 query "dateless" "SELECT account, sum(position) AS s FROM year = 2019 CLOSE GROUP BY 1 ORDER BY 1"
+2019-02-08 * "Odd precision"
+  Expenses:Food            7.5 USD
+  Expenses:Fees            12.345 USD
+  Assets:Bank:Checking   -19.845 USD''')
 TYPED = {
     'byaccount': 'SELECT account, sum(position) AS s FROM year = 2019 CLOSE ON 2019-02-06 GROUP BY account ORDER BY account',
     'nofrom': 'SELECT date, narration, position WHERE number > 100',
     'closed': 'SELECT account, sum(position) AS s FROM year = 2019 CLOSE ON 2019-01-12 GROUP BY 1 ORDER BY 1',
     'with space': "SELECT count(*) AS n FROM flag = '*' CLOSE ON 2019-02-07",
+    'dateless': 'SELECT account, sum(position) AS s FROM year = 2019 CLOSE GROUP BY 1 ORDER BY 1',
 }
 STATEMENTS = [
     'SELECT account, sum(position) AS s FROM year = 2019 GROUP BY account ORDER BY account',
@@ -55,6 +61,9 @@ STATEMENTS = [
     'SELECT payee, count(*) AS n, first(date) AS d, sum(number) AS total GROUP BY payee ORDER BY payee;',
     'SELECT DISTINCT currency, cost_currency ORDER BY 1, 2',
     "SELECT account, sum(position) AS s FROM flag = '*' GROUP BY account ORDER BY account",
+    'SELECT account, sum(position) AS s FROM year = 2019 CLOSE GROUP BY account ORDER BY account',
+    'SELECT account, sum(position) AS s FROM CLOSE CLEAR GROUP BY account ORDER BY account',
+    'SELECT account, number, position, weight WHERE account ~ "Food|Fees"',
 ]
 DEFAULTS = {'boxed': False, 'expand': False, 'format': 'text', 'narrow': True, 'nullvalue': '', 'numberify': False,
             'pager': True, 'spaced': False, 'unicode': False}
